@@ -78,7 +78,21 @@ def run(tier="quick", seed=0, arg=None):
     near_miss = ["", " ", ">=", "1.0", "=1.0", ">=1.0,", ",>=1", ">=1.0 <2", "~=1", "==1.*.0", ">=1.*", "!=", "<empty", "abc", ">=1.0||", "||", ">=1.0|| ||<2",
                  "===", "=>1.0", ">=1.0;", "~=1.0.*", "==*", ">=1.0.post", "<1.0+local", "==1.0+local", "~= 1.0", " >= 1.0 , < 2 ", "<=1.0,>=2,!=1.5", "==1.0.dev",
                  ">1!", "!=1.0.*.*", "== 1.0 || >=2", "<empty>", ">=v1.0", "==1.0 ,", "~=1!2.3", "==1!2.*"]
-    for t in leaves + near_miss + [f"{a},{b}" for a, b in [(rng.choice(leaves), rng.choice(leaves)) for _ in range(200 if tier == "quick" else 1500)]]:
+    # an invalid alternative at every position of a `||` chain, incl. after (and between) alternatives whose union already covers every version
+    # or is still empty: each alternative is validated whatever the others denote
+    chains = []
+    def _rejected(t):
+        try:
+            SpecifierSet(t)
+        except PkgInvalid:
+            return True
+        return False
+    # (`===` alternatives are left out: a union of `===V` with a range is documented as unsupported and raises ValueError - pinned by the repository's tests)
+    for bad in [n for n in near_miss if "||" not in n and n.strip() and n != "<empty>" and "===" not in n and _rejected(n)] + ["<empty>>", ">=x"]:
+        for pre in (["<2", ">=1"], ["<=1.0", ">1.0"], ["!=1.5", "==1.5"], [""], ["<empty>"], [">=2,<1"], ["<1", ">=2"], ["==1.*"]):
+            for k in range(len(pre) + 1):
+                chains.append("||".join(pre[:k] + [bad] + pre[k:]))
+    for t in leaves + near_miss + chains + [f"{a},{b}" for a, b in [(rng.choice(leaves), rng.choice(leaves)) for _ in range(200 if tier == "quick" else 1500)]]:
         evals += 1
         ref_ok = True
         if "||" in t or t == "<empty>":
